@@ -403,7 +403,7 @@ def run(ctx):
     if ctx.replay:
         rep = json.load(open(ctx.replay))
         # a replay with a variant is a general_buffered case, one with harness = gpt_sched a general_threaded case
-        cases = [] if rep.get("variant") or rep.get("harness") in ("gpt_sched", "rawptr") else [rep["case"]]
+        cases = [] if rep.get("variant") or rep.get("harness") in ("gpt_sched", "rawptr", "shb_sched") else [rep["case"]]
         ncorpus = 0
     else:
         cases = load_corpus("C04")
@@ -432,6 +432,14 @@ def run(ctx):
     # ---- general_threaded: the real code under the scheduler (reclamation thread free), monitors only (checks/C04_gpt.py)
     import C04_gpt
     gpt_cov = C04_gpt.run_gpt_sched(ctx)
+    # ---- signal_buffered: the real code with real signals under the scheduler + step comparison with LV.Model.RcuSignal
+    import C04_shb
+    try:
+        shb_cov = C04_shb.run_shb_sched(ctx)
+    except vcheck.BuildError as e:
+        shb_cov = {"build_failure": str(e)[-1500:]}
+        ctx.violation("harness/C04/shb_sched.cpp does not build against the working tree: the signal_buffered part cannot be checked",
+                      {"kind": "build-failure", "harness": "shb_sched", "error": str(e)[-2000:]}, no_input=True)
     # ---- raw_ptr / exempt_ptr of the RCU containers (checks/C04_rawptr.py, harness/C04/rawptr_main.cpp)
     import C04_rawptr
     try:
@@ -448,21 +456,22 @@ def run(ctx):
     if not res.ok:
         ctx.violation("Coq obligations of C04 do not check: %s" % (res.failed[:2],), {"theorem": [f[2] for f in res.failed], "errors": res.failed[:3]}, no_input=True)
     ctx.coverage.update({
-        "evaluations": len(cases) + gpb_cov["cases"] + gpt_cov.get("finished", 0), "distinct_nontrivial": len(stats["nontrivial"]) + gpb_cov["writer_waited_logs"] + gpt_cov.get("distinct_nontrivial", 0),
+        "evaluations": len(cases) + gpb_cov["cases"] + gpt_cov.get("finished", 0) + shb_cov.get("finished", 0), "distinct_nontrivial": len(stats["nontrivial"]) + gpb_cov["writer_waited_logs"] + gpt_cov.get("distinct_nontrivial", 0) + shb_cov.get("distinct_nontrivial", 0),
         "rule": "program x schedule pairs (2-4 threads; reader/writer/mixed programs of attach, detach, rlock, runlock (nested), publish, unpublish, touch, retire, synchronize; uniform, bursty, run-then-switch and reader-stalled-while-writer-synchronizes schedules from one splitmix64 stream); distinct = distinct model event logs; non-trivial = a flip_and_wait wait loop went round at least once (the writer really waited for a reader)",
         "distinct_event_logs": len(stats["shapes"]), "impl_steps_compared": stats["steps"], "diverged": stats["diverged"], "overruns": stats["overruns"],
         "corpus_cases": ncorpus, "traces_validated_against_impl": len(cases) - stats["diverged"],
         "op_histogram": stats["ops"], "branch_histogram": stats["branches"],
         "general_buffered": gpb_cov,
         "general_threaded_scheduled": gpt_cov,
+        "signal_buffered_scheduled": shb_cov,
         "samples": cases[ncorpus:ncorpus + 2] if len(cases) > ncorpus else cases[:1],
         "modelled": "thread_list::alloc/retire, gp_thread_gc::access_lock/access_unlock, gp_singleton::flip_and_wait/check_grace_period, general_instant::synchronize/retire_ptr, spin_lock::lock/unlock",
         "flavours": {"general_instant": "step correspondence + monitors (this check)", "general_buffered": "step correspondence with the atomic buffer wrapper + C04 monitors (this check, generator aimed at retire-during-synchronize; see general_buffered); exactly-once, default Vyukov buffer: checks/C05.py",
-                     "general_threaded": "Coq model LV.Model.RcuThreaded (reclamation thread + destructor as model threads; mutex/condvar hand-offs atomic): grace-period and exactly-once theorems proved for every schedule; tie to the code: the real general_threaded under the deterministic scheduler with the C04 / C05 monitors (checks/C04_gpt.py, harness/C04/gpt_sched.cpp: aimed run-to-a-point schedules, reclamation thread unscheduled; see general_threaded_scheduled) and the real-thread exploration of checks/C05.py; no step correspondence", "signal_buffered": "Coq model LV.Model.RcuSignal (signal delivery + handler = one atomic step of a pseudo-thread): all theorems proved; tie to the code: real-thread exploration of checks/C05.py with real signals (monitors only), no step correspondence"},
+                     "general_threaded": "Coq model LV.Model.RcuThreaded (reclamation thread + destructor as model threads; mutex/condvar hand-offs atomic): grace-period and exactly-once theorems proved for every schedule; tie to the code: the real general_threaded under the deterministic scheduler with the C04 / C05 monitors (checks/C04_gpt.py, harness/C04/gpt_sched.cpp: aimed run-to-a-point schedules, reclamation thread unscheduled; see general_threaded_scheduled) and the real-thread exploration of checks/C05.py; no step correspondence", "signal_buffered": "Coq model LV.Model.RcuSignal (signal delivery + handler = one atomic step of a pseudo-thread): all theorems proved; tie to the code: the real signal_buffered with real SIGUSR1 and the library's handler under the deterministic scheduler (checks/C04_shb.py, hooks sigsched.h: delivery = one scheduler step of the target thread), C04/C05 monitors on every case and step correspondence with the extracted model for the atomic-buffer variants; plus the real-thread exploration of checks/C05.py"},
     })
     return ctx.finish(vcheck.STD_TRUSTED + ["hook layer: khizmax_libcds_verif::atomic<T>, baton scheduler, event log (hooks/include)", "ocaml/conc_main.ml event printer",
-                                            "harness/C04/rcu_harness.h (client programs, monitors)", "harness/C05/main.cpp (AtomicBuf wrapper: one scheduling point per buffer operation)"] + C04_gpt.TRUSTED,
+                                            "harness/C04/rcu_harness.h (client programs, monitors)", "harness/C05/main.cpp (AtomicBuf wrapper: one scheduling point per buffer operation)"] + C04_gpt.TRUSTED + C04_shb.TRUSTED,
                       ["sequential consistency: memory_order arguments and fences are not modelled", "compare_exchange_weak never fails spuriously under the hook",
                        "the traversal of the thread-record list is modelled as a snapshot of the list at the head load (next_ is immutable after publication, records are never unlinked)",
                        "Lock = cds::sync::spin_lock<backoff::empty>, Backoff = backoff::empty (std::mutex cannot be scheduled by the baton scheduler)",
-                       "client contract: no synchronize/retire/detach inside a read-side section, nesting depth < 2^31 (such operations are skipped by model and harness alike)"] + C04_gpt.ASSUMPTIONS)
+                       "client contract: no synchronize/retire/detach inside a read-side section, nesting depth < 2^31 (such operations are skipped by model and harness alike)"] + C04_gpt.ASSUMPTIONS + C04_shb.ASSUMPTIONS)
